@@ -16,6 +16,10 @@ Definition TOL : Q := 1 # 1000000000000.
 Definition close_x (extra a b : Q) : bool := Qle_bool (Qabs (a - b)) (TOL * (Qabs b + extra)).
 Definition close : Q -> Q -> bool := close_x (1 # 1000).     (* scaled values and thresholds live in [-0.1, 0.1] *)
 Definition close_rel : Q -> Q -> bool := close_x 0.          (* noise variances (down to 1e-12) *)
+(* responses: an expected improvement can be a subnormal double (1.5e-323 is three units in the last place): dividing it by a task cost rounds with a
+   relative error of tens of per cent.  Below 1e-290 the comparison is absolute (quick tier, seed 303: response 1.5e-323 against 1.1e-323 / 0.75). *)
+Definition TINY : Q := 1 # (10 ^ 290).
+Definition close_resp (a b : Q) : bool := close_rel a b || Qle_bool (Qabs (a - b)) TINY.
 
 Fixpoint all2b {A B} (f : A -> B -> bool) (a : list A) (b : list B) : bool :=
   match a, b with [], [] => true | x :: a', y :: b' => f x y && all2b f a' b' | _, _ => false end.
@@ -112,7 +116,7 @@ Definition desc_match (r : request) (d : af_desc) (o : obs) : bool :=
   rows_eq (ob_pending o) (a_pending d) &&
   rows_eq (ob_eval o) (a_eval d) && Z.eqb (ob_batch o) (a_batch d) &&
   match a_best d, ob_best o with Some b, Some b' => close b' b | None, _ => true | Some _, None => false end &&
-  all2b close_rel (ob_resp o) (finalize d (ob_raw o)) &&
+  all2b close_resp (ob_resp o) (finalize d (ob_raw o)) &&
   resp_spec_b r (ob_resp o) &&
   all2b (decodes_to (q_dom r)) (ob_eval o) (q_eval r).
 
